@@ -39,4 +39,14 @@ Section KAK.
   Proof. unfold kak_half2. rewrite (q_sxdg_lit O L), (q_CXr_lit O L). mat_entries rg. Qed.
   Theorem qasm_two_qubit_kak : kak_core O ux uxc uy uyc uz uzc = mscale O uzc (kak_interaction O ux uxc uy uyc uz uzc).
   Proof. unfold kak_core. rewrite kak_half1_lit, kak_half2_lit. mat_entries rg. Qed.
+  (* version 3.0: the same sequence with rx(pi*-0.5) in place of sxdg, read with stdgates.inc (whose sx, rx, ry, rz carry their
+     physical phases), is the interaction itself *)
+  Lemma kak_half1_v3_eq : kak_half1_v3 O ux uxc uy uyc = mscale O (w8 O) (kak_half1 O ux uxc uy uyc).
+  Proof. rewrite kak_half1_lit. unfold kak_half1_v3. mat_entries rg. Qed.
+  Lemma kak_half2_v3_eq : kak_half2_v3 O uz uzc = mscale O (uz * w8c O) (kak_half2 O uz uzc).
+  Proof. rewrite kak_half2_lit. unfold kak_half2_v3. mat_entries rg. Qed.
+  Theorem qasm_two_qubit_kak_v3 : kak_core_v3 O ux uxc uy uyc uz uzc = kak_interaction O ux uxc uy uyc uz uzc.
+  Proof.
+    unfold kak_core_v3. rewrite kak_half1_v3_eq, kak_half2_v3_eq, kak_half1_lit, kak_half2_lit. mat_entries rg.
+  Qed.
 End KAK.
